@@ -334,6 +334,7 @@ fn check(prop: &PropDef, args: &Args) -> i32 {
                 "failing_input_found": failing_input,
                 "from_corpus": i < n_corpus,
                 "variables_supplied": run::variables_supplied(c),
+                "compiled_immediately_before_on_the_same_thread": c.prelude,
             }));
         }
     }
